@@ -1155,6 +1155,11 @@ func (g *Gen) runVotes(nops int) {
 			case 2:
 				g.vals[vi].power = int64(r.Intn(3))
 			}
+			for i := range g.vals {
+				if g.vals[i].bonded && g.vals[i].power == 0 {
+					g.vals[i].power = 1 // a validator of the bonded set has power >= 1 (tokens >= the power reduction)
+				}
+			}
 			g.do(g.stakingLine())
 		case x < 82:
 			g.do(fmt.Sprintf("q_lastnonce %s %s", g.pick([]string{"ethereum", "minter"}), g.vals[r.Intn(len(g.vals))].addr))
